@@ -477,6 +477,140 @@ theorem remL_spec (ho : OwnOK own) {eD eH : Bool} (hc : ClearOK own eD eH) (mode
           simpa using this
 end
 
+/-! ### a mismatch means there was nothing to remove -/
+
+theorem stripKey_none_not_prefix {k : Str} {route : List Sym} (hs : stripKey k route = none)
+    (hp : ¬ patStr route <+: k) (x : List Sym) : ¬ shape route <+: litSyms k ++ x := by
+  induction k generalizing route with
+  | nil => simp [stripKey] at hs
+  | cons a ks ih =>
+    cases route with
+    | nil => exact absurd (by simp) hp
+    | cons sy r =>
+      cases sy with
+      | tok g => simp [litSyms, shapeSym]
+      | lit c =>
+        simp only [stripKey] at hs
+        by_cases hac : a = c
+        · subst hac
+          simp only [beq_self_eq_true, if_true] at hs
+          simp only [patStr_cons, symChar, List.cons_prefix_cons, true_and] at hp
+          have := ih hs hp
+          simpa [litSyms, shapeSym] using this
+        · simp [litSyms, shapeSym, Ne.symm hac]
+
+theorem stripKey_none_ne {k : Str} {route : List Sym} (hs : stripKey k route = none)
+    (x : List Sym) : litSyms k ++ x ≠ shape route := by
+  induction k generalizing route with
+  | nil => simp [stripKey] at hs
+  | cons a ks ih =>
+    cases route with
+    | nil => simp [litSyms]
+    | cons sy r =>
+      cases sy with
+      | tok g => simp [litSyms, shapeSym]
+      | lit c =>
+        simp only [stripKey] at hs
+        by_cases hac : a = c
+        · subst hac
+          simp only [beq_self_eq_true, if_true] at hs
+          have := ih hs
+          simpa [litSyms, shapeSym] using this
+        · simp [litSyms, shapeSym, hac]
+
+mutual
+/-- when `_match` reports a mismatch (and `remove` returns without touching anything) the tree
+holds nothing in the zone of the removal -/
+theorem remN_none (ho : OwnOK own) (mode : RemMode) (noMerge : Bool) (n : Node) (h : WFN n)
+    (p : List Sym) (hr : remN noMerge mode n p = none) : ∀ e ∈ gN own n, ¬ Zone mode p e.pat := by
+  match n, p with
+  | n, [] => simp [remN] at hr
+  | .mk k d pk f hk lits tok, .lit c :: r =>
+    simp only [remN, Option.map_eq_none_iff] at hr
+    unfold WFN at h
+    intro e he
+    simp only [gN, List.mem_append] at he
+    rcases he with (he | he) | he
+    · rw [ho.pat_nil d pk hk e he]; exact zone_cons_nil mode _ _
+    · exact remL_none ho mode lits h.1 c r hr e he
+    · obtain ⟨g, q, hq⟩ := mem_gT_shape he; rw [hq]; exact zone_lit_tok mode c g r q
+  | .mk k d pk f hk lits tok, .tok g :: r =>
+    simp only [remN, Option.map_eq_none_iff] at hr
+    unfold WFN at h
+    intro e he
+    simp only [gN, List.mem_append] at he
+    rcases he with (he | he) | he
+    · rw [ho.pat_nil d pk hk e he]; exact zone_cons_nil mode _ _
+    · obtain ⟨_, _, c, q, _, hq⟩ := mem_gL_shape ho h.1 he
+      rw [hq]; exact zone_tok_lit mode c g r q
+    · exact remT_none ho mode tok h.2 g r hr e he
+theorem remT_none (ho : OwnOK own) (mode : RemMode) (t : Option Node) (h : WFT t) (g : Option Fid)
+    (r : List Sym) (hr : remT mode t r = none) : ∀ e ∈ gT own t, ¬ Zone mode (.tok g :: r) e.pat := by
+  match t with
+  | none => intro e he; simp [gT] at he
+  | some t0 =>
+    simp only [remT, Option.map_eq_none_iff] at hr
+    unfold WFT at h
+    intro e he
+    simp only [gT, List.mem_map] at he
+    obtain ⟨x, hx, rfl⟩ := he
+    simp only [Rule.under_pat, List.singleton_append]
+    rw [zone_tok_tok]
+    exact remN_none ho mode true t0 h r hr x hx
+theorem remL_none (ho : OwnOK own) (mode : RemMode) (ks : List Node) (h : WFL ks) (c : Char)
+    (r : List Sym) (hr : remL mode ks c r = none) : ∀ e ∈ gL own ks, ¬ Zone mode (.lit c :: r) e.pat := by
+  match ks with
+  | [] => intro e he; simp [gL] at he
+  | k :: ks =>
+    unfold WFL at h
+    obtain ⟨hne, hk, hks, hdist⟩ := h
+    simp only [remL] at hr
+    intro e he
+    simp only [gL, List.mem_append, List.mem_map] at he
+    by_cases hcc : k.key.head? = some c
+    · have hc' : (k.key.head? == some c) = true := by simp [hcc]
+      simp only [hc', if_true, Option.map_eq_none_iff] at hr
+      rcases he with ⟨x, hx, rfl⟩ | he
+      · simp only [Rule.under_pat]
+        cases hs : stripKey k.key (.lit c :: r) with
+        | some rest =>
+          rw [hs] at hr
+          simp only [Option.elim] at hr
+          rw [stripKey_some hs, zone_under]
+          exact remN_none ho mode false k hk rest hr x hx
+        | none =>
+          rw [hs] at hr
+          simp only [Option.elim, remPartial] at hr
+          cases mode with
+          | pref =>
+            simp only [beq_self_eq_true, Bool.true_and, ite_eq_right_iff, reduceCtorEq, imp_false,
+              List.isPrefixOf_iff_prefix] at hr
+            simp only [Zone, shape_append, shape_litSyms]
+            exact stripKey_none_not_prefix hs hr _
+          | exact =>
+            simp only [Zone, shape_append, shape_litSyms]
+            exact stripKey_none_ne hs _
+          | hooksOnly =>
+            simp only [Zone, shape_append, shape_litSyms]
+            exact stripKey_none_ne hs _
+      · obtain ⟨k2, hk2, c2, q, hc2, hq⟩ := mem_gL_shape ho hks he
+        rw [hq]
+        refine zone_lit_ne mode ?_ r q
+        intro hEq
+        exact hdist k2 hk2 (by rw [hc2, hcc, hEq])
+    · have hc' : (k.key.head? == some c) = false := by simpa using hcc
+      simp only [hc', Bool.false_eq_true, if_false, Option.map_eq_none_iff] at hr
+      rcases he with ⟨x, _, rfl⟩ | he
+      · cases hkk : k.key with
+        | nil => exact absurd hkk hne
+        | cons c2 cs =>
+          simp only [Rule.under_pat, litSyms, List.map_cons, List.cons_append]
+          refine zone_lit_ne mode ?_ r _
+          intro hEq
+          exact hcc (by rw [hkk, hEq]; rfl)
+      · exact remL_none ho mode ks hks c r hr e he
+end
+
 end Generic
 
 end Ombott.Router
